@@ -1,1 +1,150 @@
-/- C09 — property theorems (to be written) -/
+/-
+  C09 — rank transforms move every point to its image and nothing else.
+  Property theorems only; helper lemmas live in FtProofs/Lemmas/Transform.lean.
+
+  Reading guide.  `swizzle`, `swapFiber`, `mergeLv` (`_mergeRanksHelper`), `unflatLv`
+  (`unflattenRanks`), `atDepth` (`updatePayloads` descent of every `…Below` form) in
+  FtModel/Transform.lean mirror the Python loops; `none` = the implementation raises.
+  `content dflt d t` is the tensor as a map point → value (ascending list of the non-default
+  leaves with their coordinate lists).  The fiber-level functions are generic in the coordinate
+  type; tuple coordinates are `Coord = List Int` (an integer coordinate is a singleton).
+  `z` is `Payload(0)`, the default the implementation falls back to for fibers it creates itself:
+  the theorems that need it assume `z = dflt` (tensor default 0) — the other case is an open
+  finding, see `obligations/C09.json`.
+-/
+import FtProofs.Lemmas.Transform
+import FtProofs.Lemmas.SplitUniform
+import FtProofs.Lemmas.SplitSpec
+set_option linter.unusedSectionVars false
+set_option linter.unusedSimpArgs false
+set_option linter.unusedVariables false
+namespace Ft
+open StrictTotal C09
+
+section generic
+variable {κ : Type} [LT κ] [DecidableRel (α := κ) (· < ·)] [DecidableEq κ] [StrictTotal κ]
+variable {ν : Type} [DecidableEq ν]
+
+/-! ### swizzle -/
+
+/-- **Swizzle.**  For every well-formed tensor (any depth `r + swiz_len`, explicit defaults and
+    empty sub-fibers allowed) and every permutation `g` of the top `k+1 = swiz_len` ranks, the DFS
+    extraction / sort / rebuild of `Tensor.swizzleRanks` yields a well-formed tensor whose content
+    is the original's with every point's coordinates permuted by `g`, in ascending order. -/
+theorem swizzle_content (dflt : ν) (r k : Nat) (g : List Nat) (hg : guideOkB (k + 1) g = true)
+    (t : Tree κ ν (r + (k + 1))) (hw : WF (r + (k + 1)) t) :
+    WF (r + (k + 1)) (swizzle r k g t) ∧
+    content dflt (r + (k + 1)) (swizzle r k g t) = swizzleSpec g (content dflt (r + (k + 1)) t) :=
+  swizzle_wf_content dflt r k g ((guideOkB_iff _ _).1 hg) t hw
+
+example : guideOkB 3 [2, 0, 1] = true := by decide
+
+/-- **Swizzle round trip.**  Swizzling with `g` and then with a permutation `g'` that undoes it
+    restores the content (an equal tensor; empty sub-fibers of the swizzled ranks are not
+    re-created). -/
+theorem swizzle_inverse (dflt : ν) (r k : Nat) (g g' : List Nat)
+    (hg : guideOkB (k + 1) g = true) (hg' : guideOkB (k + 1) g' = true)
+    (hinv : ∀ p : List κ, p.length = k + 1 → permute g' (permute g p) = p)
+    (t : Tree κ ν (r + (k + 1))) (hw : WF (r + (k + 1)) t) :
+    WF (r + (k + 1)) (swizzle r k g' (swizzle r k g t)) ∧
+    content dflt (r + (k + 1)) (swizzle r k g' (swizzle r k g t)) = content dflt (r + (k + 1)) t := by
+  have G := (guideOkB_iff _ _).1 hg
+  have G' := (guideOkB_iff _ _).1 hg'
+  obtain ⟨w1, c1⟩ := swizzle_wf_content dflt r k g G t hw
+  obtain ⟨w2, c2⟩ := swizzle_wf_content dflt r k g' G' (swizzle r k g t) w1
+  refine ⟨w2, ?_⟩
+  rw [c2, c1]
+  unfold swizzleSpec
+  symm
+  apply eq_isort_of_sorted_perm (content_sorted dflt _ t hw)
+  have hp := isort_perm (κ := List κ) ((content dflt (r + (k + 1)) t).map (fun pv => (permPoint g pv.1, pv.2)))
+  refine List.Perm.trans ?_ (hp.map _).symm
+  rw [List.map_map]
+  have : (content dflt (r + (k + 1)) t).map
+      ((fun pv => (permPoint g' pv.1, pv.2)) ∘ (fun pv => (permPoint g pv.1, pv.2))) =
+      content dflt (r + (k + 1)) t := by
+    conv => rhs; rw [← List.map_id (content dflt (r + (k + 1)) t)]
+    apply List.map_congr_left
+    intro pv hpv
+    obtain ⟨p, v⟩ := pv
+    have hl : p.length = r + (k + 1) := content_point_length dflt _ t (p, v) hpv
+    have htl : (p.take (k + 1)).length = k + 1 := by
+      rw [List.length_take]; omega
+    have hpl : (permute g (p.take (k + 1))).length = k + 1 := by
+      rw [permute_length (fun i hi => by rw [htl]; exact G.2.1 i hi), G.1]
+    show (permPoint g' (permPoint g p), v) = (p, v)
+    have e1 : permPoint g p = permute g (p.take (k + 1)) ++ p.drop (k + 1) := by
+      conv => lhs; rw [← List.take_append_drop (k + 1) p]
+      exact permPoint_append G htl
+    rw [e1, permPoint_append G' hpl, hinv _ htl, List.take_append_drop]
+  rw [this]
+
+/-! ### flatten / merge without collisions -/
+
+/-- **Flatten** (any number of levels, payloads at any depth `r` below, any way of combining
+    coordinates): whenever the new coordinates come out ascending at every level (`monoLvB`,
+    decidable; it holds for the tuple / pair styles, see `flatten_tuple_mono`, and for the linear
+    style on coordinates inside the declared shape), `_mergeRanksHelper` succeeds, never calls the
+    merge function, returns a well-formed fiber, and every point has moved to its image
+    `joinTop` — its first `l+2` coordinates combined, everything else untouched, order preserved.
+    Stated for tensor default 0 (`z = dflt`) and the non-linear code path. -/
+theorem flatten_content (comb : Nat → κ → κ → κ) (mf : List ν → Option ν) (dflt : ν) (r l : Nat)
+    (f : Tree κ ν (r + 2 + l)) (hw : WF (r + 2 + l) f) (hm : monoLvB comb dflt r l f = true) :
+    mergeLv false dflt comb mf dflt r l f = some (flatLv comb dflt r l f) ∧
+    content dflt (r + 1) (flatLv comb dflt r l f) =
+      (content dflt (r + 2 + l) f).map (fun pv => (joinTop comb l pv.1, pv.2)) ∧
+    Sorted (show List (κ × Tree κ ν r) from flatLv comb dflt r l f) :=
+  ⟨mergeLv_mono comb mf dflt r l f ((monoLvB_iff comb dflt r l f).1 hm),
+   content_flatLv comb dflt r l f,
+   ((monoLvB_iff comb dflt r l f).1 hm).sorted⟩
+
+/-! ### unflatten -/
+
+/-- **Unflatten** (any number of levels): on a well-formed fiber with at least one element whose
+    tuple coordinates are ordered lexicographically by (first component, rest) — `LexSplit`,
+    true for Python tuples, see `lexSplit_coord` — `unflattenRanks` succeeds, returns a
+    well-formed fiber and every point has moved to its image `splitTop` (first coordinate split
+    into `l+2` coordinates), order preserved. -/
+theorem unflatten_content (dflt : ν) (hd tl : κ → κ) (hH : LexSplit hd tl) (r l : Nat)
+    (f : Tree κ ν (r + 1)) (hne : (show List (κ × Tree κ ν r) from f) ≠ []) (hw : WF (r + 1) f) :
+    ∃ g, unflatLv hd tl r l f = some g ∧ WF (r + 2 + l) g ∧
+      content dflt (r + 2 + l) g =
+        (content dflt (r + 1) f).map (fun pv => (splitTop hd tl l pv.1, pv.2)) :=
+  unflatLv_spec dflt hd tl hH r l f hne hw
+
+/-- `self.coords[0]` of `unflattenRanks` raises on a fiber without elements (this is what makes
+    `Tensor.unflattenRanks(depth ≥ 1)` fail on a tree with an empty sub-fiber — open finding) -/
+theorem unflatten_empty_raises (hd tl : κ → κ) (r l : Nat) :
+    unflatLv (ν := ν) hd tl r l (show Tree κ ν (r + 1) from ([] : List (κ × Tree κ ν r))) = none := by
+  cases l <;> rfl
+
+/-! ### every depth -/
+
+/-- **Every depth.**  What a fiber-level transform `g` does to every fiber at depth `k` (succeeds,
+    well-formed result, content = the `φ`-image) the `…Below` / `depth=k` form does to the whole
+    tree, with `φ` applied below the first `k` coordinates — for every `k`, every tree, empty
+    sub-fibers and explicit defaults included (`updatePayloads` visits every stored payload at
+    its own position). -/
+theorem transform_at_depth (dflt dflt' : ν) (a b : Nat) (g : Tree κ ν a → Option (Tree κ ν b))
+    (φ : List κ → List κ) (k : Nat) (t : Tree κ ν (a + k)) (hw : WF (a + k) t)
+    (h : ∀ s ∈ subsAt a k t, WF a s → ∃ s', g s = some s' ∧ WF b s' ∧
+        content dflt' b s' = (content dflt a s).map (fun pv => (φ pv.1, pv.2))) :
+    ∃ t', atDepth g k t = some t' ∧ WF (b + k) t' ∧
+      content dflt' (b + k) t' = (content dflt (a + k) t).map (fun pv => (liftN φ k pv.1, pv.2)) :=
+  atDepth_spec_eq dflt dflt' a b g φ k t hw h
+
+/-- the same for transforms that reorder (swap): content up to permutation, hence — the result
+    being well-formed — the ascending arrangement of the images -/
+theorem transform_at_depth_sorted (dflt dflt' : ν) (a b : Nat) (g : Tree κ ν a → Option (Tree κ ν b))
+    (φ : List κ → List κ) (k : Nat) (t : Tree κ ν (a + k)) (hw : WF (a + k) t)
+    (h : ∀ s ∈ subsAt a k t, WF a s → ∃ s', g s = some s' ∧ WF b s' ∧
+        (content dflt' b s').Perm ((content dflt a s).map (fun pv => (φ pv.1, pv.2)))) :
+    ∃ t', atDepth g k t = some t' ∧ WF (b + k) t' ∧
+      content dflt' (b + k) t' =
+        isort (κ := List κ) ((content dflt (a + k) t).map (fun pv => (liftN φ k pv.1, pv.2))) := by
+  obtain ⟨t', h1, h2, h3⟩ := atDepth_spec_perm dflt dflt' a b g φ k t hw h
+  exact ⟨t', h1, h2, content_eq_isort_of_perm h2 h3⟩
+
+end generic
+
+end Ft
